@@ -207,7 +207,7 @@ func oracleC18(ctx *harness.Ctx, cs *harness.Case) (ds []harness.Discrepancy) {
 	// so lazily initialised shared state (caches, tables built on first use) is first touched under concurrency
 	var cold []int
 	for i := range calls {
-		if i >= len(calls)/2 {
+		if i >= len(calls)/2 || cs.Aux["cold"] == "all" {
 			cold = append(cold, i)
 		}
 	}
@@ -272,7 +272,34 @@ func writeCaseFile(path string, c *harness.Case) {
 
 func runC18(ctx *harness.Ctx) {
 	useAvoid(ctx)
-	ctx.Rapid("batches", ctx.Pick(150, 2500), func(t *rapid.T) {
+	// cold sweep: the very first thing this process does with the library is to run a broad batch (every statement
+	// family, expressions, types, mutants) concurrently, so that state initialised lazily on first use of a feature
+	// is first touched by several goroutines at once.
+	ctx.Rapid("cold-sweep", 1, func(t *rapid.T) {
+		var inputs []string
+		for i := 0; i < 260; i++ {
+			var c GenCase
+			if i%5 == 4 {
+				c = drawGenRelaxed(t, "", 2)
+			} else {
+				c = drawGen(t, []string{"query", "expr", "type", "dml", "ddl", "call", "expr", "query"}[i%8], 2)
+			}
+			src := c.Text
+			if i%7 == 6 {
+				src = mutate.Tokens(t, src, 2)
+			}
+			if len(src) > 1200 {
+				src = src[:1200]
+			}
+			inputs = append(inputs, src)
+		}
+		inputs = append(inputs, ".5 + x", "a b", "(1))", "arr[OFFSET(1)]", "t.arr[ordinal(2)][i]", "'\\u00e9' || `a\\u0062`", "SELECT 1; \x00")
+		cs := &harness.Case{Leg: "cold-sweep", Input: encodeBatch(inputs), Aux: map[string]string{"goroutines": "16", "rotate": "3", "cold": "all"}}
+		ctx.Eval(int64(len(inputs) * len(c03Entries)))
+		ctx.NonTrivial(harness.Hash(cs.Input))
+		ctx.Check(t, cs, oracleC18(ctx, cs))
+	})
+	ctx.Rapid("batches", ctx.Pick(90, 2500), func(t *rapid.T) {
 		n := rapid.IntRange(8, 48).Draw(t, "n")
 		var inputs []string
 		withErr := 0
@@ -291,6 +318,10 @@ func runC18(ctx *harness.Ctx) {
 			}
 			if len(s) > 1500 {
 				s = s[:1500]
+			}
+			// inputs whose FIRST token is lexed differently depending on leftover lexer state
+			if rapid.IntRange(0, 7).Draw(t, "dotlead") == 0 {
+				s = rapid.SampledFrom([]string{".5 + ", ".5", ".5 * (", ".25e1 - "}).Draw(t, "dot") + s
 			}
 			inputs = append(inputs, s)
 		}
